@@ -2,7 +2,7 @@ SPECIFICATION Spec
 CONSTANTS
   MaxOps = 5
   MaxDepth = 2
-  MCKinds = {"vec", "arrayvec", "slice", "sliceref"}
+  MCKinds = {"vec", "arrayvec", "slice", "sliceref", "raw"}
   Caps = {0, 1, 2, 4}
   Len0s = {0, 1, 2}
   Sizes = {0, 1, 3, 5}
@@ -11,12 +11,31 @@ CONSTANTS
   ExtUnder = {1, 5}
   ExtOver = {1}
   AdvSizes = {1, 2}
+  ScrSizes = {1, 2}
   Avails = {2}
   CapAts = {0, 1, 5}
   CapAts2 = {}
+  RelCaps = {}
   OverKinds = {"total"}
   TouchCaps = {}
+  TouchOn = FALSE
+  CloseInitOn = TRUE
+  UnwindOn = TRUE
+  ViaSet = {}
+  ViaCaps = {}
+  Readers = {}
+  RdAvails = {}
+  RdCaps = {}
+  UserWho = {}
+  UserSizes = {}
+  UserCaps = {}
+  PkKinds = {}
+  PkSizes = {}
+  PkInts = {}
+  PkNegInts = {}
+  GrowBy = {}
+  RawDirtyNs = {}
 VIEW View
 INVARIANTS InitLeSpare Nested Contents OwnerBytes Untouched
-PROPERTIES Frame WriteBack Refusal SliceReported RefusedCounts
+PROPERTIES Frame FrameTop WriteBack Refusal SliceReported RefusedCounts UserCounts
 CHECK_DEADLOCK FALSE
